@@ -152,7 +152,8 @@ def layout_units(tier, which):
 def sizing_units(tier):
     """conversions into the curve layouts with fixed non-power-of-two extents: the only place where the library itself
     sizes Morton/Hilbert storage (ipow(round_pow2(max extent), N)); every cell access carries the engine's bounds VC"""
-    return [u for u in units_C05(tier, 0) if u['name'].startswith('c05_convfixed_rowmajor_')]
+    return [u for u in units_C05(tier, 0) if u['name'].startswith('c05_convfixed_rowmajor_')
+            or (u['name'].startswith('c05_conv_rowmajor_') and u['flavour'] == 'rel')]
 
 
 def units_C01(tier, seed):
